@@ -1,6 +1,7 @@
 package ipc
 
 import (
+	"go/token"
 	"fmt"
 	"go/types"
 	"strings"
@@ -54,7 +55,7 @@ func reqHeaderOf(v ssa.Value) bool {
 // h.Values(k), h[k] or the value variable of a range over h.
 func reqHeaderValues(v ssa.Value) bool {
 	hit := false
-	SliceBack(v, func(x ssa.Value) bool {
+	aliasBack(v, func(x ssa.Value) bool {
 		switch y := x.(type) {
 		case *ssa.Call:
 			if CalleeName(y.Common()) == "(net/http.Header).Values" && reqHeaderOf(y.Call.Args[0]) {
@@ -279,6 +280,10 @@ func runC02(c *Ctx) {
 						return
 					}
 					_, okf := allowed[f]
+					if f == "ErrorLog" && plainStdLogger(st.Val) {
+						c.OK("C02.W", "hostProxy:ReverseProxy."+f, p, st.Pos(), "the proxy's error log is a plain logger over the process's standard streams: it does not touch requests")
+						return
+					}
 					c.Check("C02.W", "hostProxy:ReverseProxy."+f, p, st.Pos(), okf, "allowed override: "+allowed[f], "ReverseProxy."+f+" is overridden: the outgoing request is no longer the one httputil's single-host director produces from the client's request (Rewrite mode, for instance, strips Forwarded/X-Forwarded-* fields the client sent)")
 				})
 			}
@@ -460,4 +465,69 @@ func ruleTransparentChain(c *Ctx, p *Prog, rule string) {
 		}
 		c.Check(rule, name+":transparent", p, f.Pos(), bad == "", "no ServeMux/StripPrefix/TimeoutHandler/… on the pass-through route built here", "the pass-through chain built in "+name+" contains "+bad+": http.ServeMux answers 301 itself for any path that is not clean (/a//b, /a/../b) and strips ports for matching; http.TimeoutHandler buffers the whole response until the handler returns; the request/response no longer passes as sent")
 	}
+}
+
+// aliasBack visits the values whose backing array v may share: sub-slices, phis, type
+// changes, the destination (first argument) of append — not its appended elements, which
+// are copied — and the arguments/results of new helpers.
+func aliasBack(v ssa.Value, visit func(ssa.Value) bool) {
+	seen := map[ssa.Value]bool{}
+	var walk func(v ssa.Value, d int) bool
+	walk = func(v ssa.Value, d int) bool {
+		if v == nil || seen[v] || d > 12 {
+			return true
+		}
+		seen[v] = true
+		if !visit(v) {
+			return false
+		}
+		switch x := v.(type) {
+		case *ssa.Slice:
+			return walk(x.X, d+1)
+		case *ssa.ChangeType:
+			return walk(x.X, d+1)
+		case *ssa.MakeInterface:
+			return walk(x.X, d+1)
+		case *ssa.TypeAssert:
+			return walk(x.X, d+1)
+		case *ssa.Phi:
+			for _, e := range x.Edges {
+				if !walk(e, d+1) {
+					return false
+				}
+			}
+		case *ssa.UnOp:
+			if x.Op == token.MUL {
+				if cell, ok := x.X.(*ssa.Alloc); ok {
+					for _, st := range storesTo(cell) {
+						if !walk(st, d+1) {
+							return false
+						}
+					}
+				}
+			}
+		case *ssa.Parameter:
+			for _, a := range helperParamArgs(x) {
+				if !walk(a, d+1) {
+					return false
+				}
+			}
+		case *ssa.Call:
+			if b, ok := x.Call.Value.(*ssa.Builtin); ok && b.Name() == "append" && len(x.Call.Args) > 0 {
+				return walk(x.Call.Args[0], d+1)
+			}
+			if h, ok := calleeFn(x.Call.Value); ok && IsNewHelper(h) {
+				for _, r := range helperResults(x, 0) {
+					if !walk(r, d+1) {
+						return false
+					}
+				}
+			}
+		case *ssa.Extract:
+			// the value variable of a range over a header, or a comma-ok lookup
+			return true
+		}
+		return true
+	}
+	walk(v, 0)
 }
